@@ -265,3 +265,58 @@ pub fn group_convert(bytes: &[u8]) -> Vec<u8> {
 pub fn static_empty() -> Vec<u8> {
     Group::static_empty().iter().map(|t| tag_u8(*t)).collect()
 }
+
+// ---------------------------------------------------------------- rayon split driver
+
+/// Applies `RawIterRange::split` along a caller-chosen decision tree and returns, for every leaf in
+/// left-to-right order, the bucket indices it yields. `decide(depth, path)` says whether the range
+/// reached by `path` (false = left, true = right) is split further; a range that cannot be split
+/// (`split` returns `None`) becomes a leaf regardless.
+#[cfg(feature = "rayon")]
+impl<T, A: Allocator> RawTable<T, A> {
+    pub fn verif_split_leaves(&self, decide: &mut dyn FnMut(&[bool]) -> bool) -> Vec<Vec<usize>> {
+        fn go<T, A: Allocator>(
+            table: &RawTable<T, A>,
+            range: super::RawIterRange<T>,
+            path: &mut Vec<bool>,
+            decide: &mut dyn FnMut(&[bool]) -> bool,
+            out: &mut Vec<Vec<usize>>,
+        ) {
+            if decide(path) {
+                let (left, right) = range.split();
+                if let Some(right) = right {
+                    path.push(false);
+                    go(table, left, path, decide, out);
+                    path.pop();
+                    path.push(true);
+                    go(table, right, path, decide, out);
+                    path.pop();
+                    return;
+                }
+                let leaf = left.map(|b| unsafe { table.bucket_index(&b) }).collect();
+                out.push(leaf);
+                return;
+            }
+            let leaf = range.map(|b| unsafe { table.bucket_index(&b) }).collect();
+            out.push(leaf);
+        }
+        let mut out = Vec::new();
+        let range = unsafe { self.iter().iter };
+        go(self, range, &mut Vec::new(), decide, &mut out);
+        out
+    }
+}
+
+#[cfg(feature = "rayon")]
+impl<K, V, S, A: Allocator> crate::HashMap<K, V, S, A> {
+    pub fn verif_split_leaves(&self, decide: &mut dyn FnMut(&[bool]) -> bool) -> Vec<Vec<usize>> {
+        self.table.verif_split_leaves(decide)
+    }
+}
+
+#[cfg(feature = "rayon")]
+impl<T, A: Allocator> crate::HashTable<T, A> {
+    pub fn verif_split_leaves(&self, decide: &mut dyn FnMut(&[bool]) -> bool) -> Vec<Vec<usize>> {
+        self.raw.verif_split_leaves(decide)
+    }
+}
